@@ -303,6 +303,11 @@ class Reference:
             self.switch_log.append((consumer, kw, mark[2], label, None))
             return Res(ERR, causes=frozenset({('nocase', consumer, kw, vrepr(label))}))
         if k == 'OneOf':
+            # the one-of itself hangs on the input node (builder: edge input -> head): a failing input node is a
+            # failure of the consumer, not of a candidate
+            r0 = self.eval_in(self.spec['input'])
+            if not r0.ok:
+                return r0
             tried = []
             detail = []
             for c in mark[1]:
